@@ -324,6 +324,8 @@ def jobs(unit, tier, only=None):
 
 def _num(s):
     import re
+    if isinstance(s, int):
+        return s
     m = re.match(r'\s*\(?\s*(-?\d+)', str(s))
     return int(m.group(1)) if m else 0
 
